@@ -209,7 +209,7 @@ func buildWorld(cc *run.Case, pool []namedStrat, nAssets, nStrats int, repoKind 
 	for len(w.mkStrat) < nStrats {
 		ns := pool[r.Intn(len(pool))]
 		nm := ns.New().Name()
-		if seen[nm] || strings.ContainsAny(nm, "/\\") {
+		if seen[nm] {
 			continue
 		}
 		seen[nm] = true
